@@ -40,7 +40,9 @@ def time_of(cfg, i):
 def configs(draw, wrappers=("interval",), allow_cache0=True, allow_dt=True, allow_tol=True, allow_halfway=True,
             shapes=None, levy=None, allow_user=True, max_pieces=4000, dtypes=("float64", "float32"), lattice=True):
     wrapper = draw(st.sampled_from(list(wrappers)))
-    t0 = draw(st.sampled_from([0.0, 0.0, -1.0, -0.5, 0.25, 3.0]))
+    # mostly windows of size O(1) near the origin; sometimes far from it (|t| ~ 1e3: relative and absolute closeness of two
+    # times are then different things)
+    t0 = draw(st.sampled_from([0.0, 0.0, -1.0, -0.5, 0.25, 3.0, 0.0, -1.0, 0.25, 1000.0, -3000.0]))
     span = draw(st.sampled_from([1.0, 1.0, 0.5, 2.0, 10.0]))
     if wrapper == "path":
         span = 1.0
@@ -113,7 +115,11 @@ def op_lists(draw, cfg, min_ops=1, max_ops=12, max_sweep=40, allow_zero=True, al
     n = cfg["grid"]
     ops = []
     k = draw(st.integers(min_ops, max_ops))
-    kinds = ["q", "q", "q", "sweep", "sweepback", "zoom", "req", "trial", "trial_re", "lastpiece", "pad100"]
+    kinds = ["q", "q", "q", "sweep", "sweepback", "zoom", "req", "trial", "trial_re", "lastpiece", "leadpiece", "pad100"]
+    if cfg["tol"] == 0:
+        kinds.append("nudge")
+        if abs(cfg["t0"]) >= 100:
+            kinds += ["tinyq", "tinyq", "tinyq"]
     if allow_zero:
         kinds.append("zero")
     if allow_point:
@@ -170,6 +176,22 @@ def op_lists(draw, cfg, min_ops=1, max_ops=12, max_sweep=40, allow_zero=True, al
             # from the cached left half, one new cache entry each), otherwise unit cells starting at that grid index
             ops.append(["trial_re", i, j, draw(st.sampled_from(ks)),
                         draw(st.one_of(st.just(-1), st.just(-1), st.integers(0, n - 1)))])
+        elif kind == "tinyq":
+            # far from the origin: an interval that is tiny relative to |t| (yet far above floating-point resolution),
+            # asked for together with the two intervals it splits
+            i = draw(st.integers(1, n - 2))
+            ops.append(["tinyq", i, draw(st.sampled_from([1e-6, 3e-7, 1e-7, 1e-8]))])
+        elif kind == "leadpiece":
+            # [a,c], then a leading part [a,b] of it, then [a,c] again at once
+            a_ = draw(st.integers(0, n - 2))
+            c_ = draw(st.integers(a_ + 2, n))
+            ops.append(["leadpiece", a_, draw(st.integers(a_ + 1, c_ - 1)), c_])
+        elif kind == "nudge":
+            # an existing knot b, then queries whose end point lies a few ulps INSIDE [a,b] resp. [b,c] (the literal 0.3
+            # after an accumulated 0.30000000000000004): additivity must hold at floating-point resolution
+            a_ = draw(st.integers(0, n - 3))
+            b_ = draw(st.integers(a_ + 1, n - 2))
+            ops.append(["nudge", a_, b_, draw(st.integers(b_ + 1, n)), draw(st.sampled_from([1, 2, 7, 1000, 5000]))])
         elif kind == "lastpiece":
             # [b,c], then [a,c] (answered from several stored pieces, [b,c] being the last), then [b,c] again at once
             a_ = draw(st.integers(0, n - 2))
@@ -248,6 +270,32 @@ def expand(case):
                     c = (start + s_) % cfg["grid"]
                     add(c, c + 1)
             add(i, j)
+        elif kind == "tinyq":
+            _, i_, frac = op
+            ta_, tm_ = time_of(cfg, i_ - 1), time_of(cfg, i_)
+            tb_ = tm_ + frac * (cfg["t1"] - cfg["t0"])
+            tc_ = time_of(cfg, cfg["grid"])
+            if ta_ < tm_ < tb_ < tc_:
+                out.append((tm_, tb_))
+                out.append((ta_, tb_))
+                out.append((ta_, tm_))
+                out.append((tb_, tc_))
+        elif kind == "leadpiece":
+            _, a_, b_, c_ = op
+            add(a_, c_)
+            add(a_, b_)
+            add(a_, c_)
+        elif kind == "nudge":
+            _, a_, b_, c_, k_ = op
+            ta_, tb_, tc_ = time_of(cfg, a_), time_of(cfg, b_), time_of(cfg, c_)
+            eps_ = k_ * abs(math.ulp(tb_)) if tb_ != 0 else k_ * 5e-324
+            if ta_ < tb_ - eps_ and tb_ + eps_ < tc_:
+                out.append((ta_, tb_))
+                out.append((tb_, tc_))
+                out.append((ta_, tb_ - eps_))
+                out.append((tb_ - eps_, tc_))
+                out.append((tb_ + eps_, tc_))
+                out.append((ta_, tc_))
         elif kind == "lastpiece":
             _, a_, b_, c_ = op
             add(b_, c_)
